@@ -7,6 +7,7 @@ vf/ref/regspec.py (own JSON walk) and is the oracle for sizes, bit positions, co
 from __future__ import annotations
 
 import hashlib
+import os
 import random
 import struct
 
@@ -232,6 +233,9 @@ def _state() -> dict:
             raise HarnessError("device database could not be composed: %s" % db.errors[:3])
         _S["db"] = db
         _S["tuples"] = dbenum.config_area_tuples(db)
+        only = os.environ.get("VERIF_C12_AREAS")  # development knob (mutation audit): restrict the domain to some areas
+        if only:
+            _S["tuples"] = [t for t in _S["tuples"] if t["area"] in only.split(",")]
         by_area: dict = {}
         for t in _S["tuples"]:
             by_area.setdefault(t["area"], []).append(t)
